@@ -2,7 +2,7 @@
      <flags> <N> <eps_num> <eps_den> <mini> <maxi> <dim_max> | <N*N integer distances> | <order p0 p1 ..> | <simplices of the C++ complex  v,v,..:num/den ...>
    flags: 'I' = also measure the interleaving bound, 'A' = eps is not exactly representable (the given rational is the exact value
    of the double): report whether some branch decision is sensitive to a 2^-40 relative perturbation of eps.
-   Output:  greedy=<0|1> ok=<0|1> sens=<0|1> sub=<0|1> valid=<0|1> inter=<1|1x|0|-|fail> (1x: within the bound and the two diagrams differ) | M <model complex> | B <bars ...>
+   Output:  greedy=<0|1> ok=<0|1> lvl=<0|1: the level-wise model equals the traversal model M> sens=<0|1> sub=<0|1> valid=<0|1> inter=<1|1x|0|-|fail> (1x: within the bound and the two diagrams differ) | M <model complex> | B <bars ...>
    Everything decisive (model, checks, bars, matching certificate check) is extracted Coq; this file parses, prints and
    SEARCHES the matching (Kuhn's augmenting paths) that the extracted check_matching then validates. *)
 let qmake n d = { qnum = n; qden = (match d with Zpos p -> p | _ -> XH) }
@@ -85,7 +85,8 @@ let () =
         let greedy = ord_known && greedyb d nn [] pi in
         let ok = ord_known && order_ok d nn pi mini in
         let model e = sparse_complex d e nn pi mini maxi (z_of_int dim) in
-        let km = model eps in
+        let km = sparse_complex_trie d eps nn pi mini maxi (z_of_int dim) in
+        let lvl = (canon_cplx (model eps) = canon_cplx km) in
         let sens =
           if String.contains flags 'A' then begin
             let t = qmake (z_of_int 1) (Z.pow (z_of_int 2) (z_of_int 40)) in
@@ -114,7 +115,7 @@ let () =
                 | _ -> res := "fail") [2; 3];
             ((if !res = "1" && not !same then "1x" else !res), Buffer.contents info)
           end else ("-", "") in
-        emit (Printf.sprintf "greedy=%s ok=%s sens=%s sub=%s valid=%s inter=%s | M %s%s" (bstr greedy) (bstr ok) (bstr sens) (bstr sub) (bstr valid) inter
+        emit (Printf.sprintf "greedy=%s ok=%s lvl=%s sens=%s sub=%s valid=%s inter=%s | M %s%s" (bstr greedy) (bstr ok) (bstr lvl) (bstr sens) (bstr sub) (bstr valid) inter
                 (canon_cplx km) binfo)
       with e -> emit ("ERR " ^ Printexc.to_string e));
   flush_out ()
